@@ -131,3 +131,24 @@ def emitters(F, bodies):
                 if f and "event::Event" in f.get("full", ""):
                     out[b.key] = b
     return out
+
+
+
+def check_field_faithful_clone(F, R, adt, inst_prefix):
+    """A hand-written `impl Clone for <adt>` must build the clone field by field from the like-named field of `self`."""
+    from . import analysis as A
+    from .mir import place_fields
+    cl = [b for b in F.crate_bodies() if (b.impl or {}).get("self_adt") == adt and (b.impl or {}).get("trait") == "std::clone::Clone" and b.name.endswith("::clone")]
+    if len(cl) != 1:
+        R.unverifiable(f"{inst_prefix}/clone-impl", f"{len(cl)} Clone impls for {adt}")
+        return
+    b = cl[0]
+    aggs = [(s, st) for s, st in b.assigns(lambda st: st["rv"]["k"] == "agg" and st["rv"].get("adt") == adt)]
+    if len(aggs) != 1:
+        R.unverifiable(f"{inst_prefix}/clone-aggregate", f"{len(aggs)} aggregates in {b.short}")
+        return
+    s, st = aggs[0]
+    for name, op in zip(st["rv"]["fields"], st["rv"]["ops"]):
+        sl = A.slice_back(b, [op])
+        src = sorted({n for o, n in sl.fields if o == adt})
+        R.check(src == [name], f"{inst_prefix}/clone-field/{name}", s, f"{name}: self.{name}", f"`{adt}::clone` fills field `{name}` from {src}: a cloned value behaves differently from the original")
